@@ -62,6 +62,10 @@ pub struct Extras {
     /// extra trailing bytes appended to every instance of a known event (by code)
     pub trailing: BTreeMap<u8, u16>,
     pub trailing_pseed: u64,
+    /// payload-table entries for codes that never occur in the stream (code, size) — including
+    /// known codes the version does not use
+    #[serde(default)]
+    pub phantom: Vec<(u8, u16)>,
 }
 
 #[derive(Serialize, Deserialize, Clone, Debug, PartialEq, Default)]
@@ -105,6 +109,10 @@ pub struct RecorderSpec {
     /// n > 0: roughly 1 frame-level event in n has an all-zero or all-ones payload
     #[serde(default)]
     pub blank: u8,
+    /// an idle recording (paused / nothing moves): every event repeats the bytes of the previous event of its
+    /// kind (and character), only the frame number advancing
+    #[serde(default)]
+    pub idle: bool,
 }
 
 #[derive(Serialize, Deserialize, Clone, Debug, PartialEq)]
